@@ -4,6 +4,7 @@
  *   prog0 is executed by the main thread, prog<u> by a Cello Thread created by the `S<u>` of its parent
  *   (prog0 or another worker program); only the creator joins (`J<u>`) and reads (`P<u>`) it.
  *   tokens:  a0 a1  u<i>  c  s<k>,<v>  g<k>  m<k>  r<k>  e<v>  w<k>,<n>  o  y  z<ms>  t<e>
+ *            B<m> = lock after a failed trylock;  case flag n (first field) = no stand-alone phase
  *            a second S<u> by the creator after J<u> calls the SAME Thread object again (trace marker R)
  *            [ body ]<e>,<e> handler }      try { body } catch (x in e,e) { handler }   (0..2 classes)
  *            L<m> U<m> T<m>  W<m>( body )  Q<m>( body )  i<m>     S<t> J<t> P<t>     (Q: if (trylock) { body; unlock })
@@ -55,6 +56,7 @@ struct TCtx {
   int spawned, joined, parent;
   var* kids;                   /* Thread objects this thread created: an array in ITS frame (root of ITS collector) */
   long incs[MAXM];
+  int open[MAXM];              /* index of the open section-log entry per mutex */
 };
 
 static struct TCtx ctx[2][MAXT];
@@ -269,10 +271,26 @@ static int exn_index(var e) { for (int i = 0; i < NEXN; i++) if (e is EX[i]) ret
 
 static void exec_block(struct TCtx* c, struct Node* n);
 
+/* every critical section is logged with monotonic timestamps taken INSIDE it (after the lock returned, before the
+   unlock): two sections of one mutex whose intervals intersect have overlapped, whatever the wall-clock load */
+struct SecEv { long m; int tid; double enter, leave; };
+#define MAXSEC 8192
+static struct SecEv seclog[MAXSEC];
+static int n_sec;
+static double now_s(void) { struct timespec ts; clock_gettime(CLOCK_MONOTONIC, &ts); return (double)ts.tv_sec + ts.tv_nsec * 1e-9; }
+
 static void enter_section(long m) {
   if (__sync_lock_test_and_set(&inside[m], 1)) __sync_fetch_and_add(&n_overlap, 1);
+  int i = __sync_fetch_and_add(&n_sec, 1);
+  if (me) me->open[m] = i < MAXSEC ? i : -1;
+  if (i < MAXSEC) { seclog[i].m = m; seclog[i].tid = me ? me->tid : -1; seclog[i].leave = 0; seclog[i].enter = now_s(); }
 }
-static void leave_section(long m) { __sync_lock_release(&inside[m]); }
+static void leave_section(long m) {
+  if (me && me->open[m] >= 0) seclog[me->open[m]].leave = now_s();
+  /* the flag must still be ours: somebody who entered meanwhile has overwritten nothing, but an exit of
+     somebody else would have cleared it */
+  if (__sync_val_compare_and_swap(&inside[m], 1, 0) != 1) __sync_fetch_and_add(&n_overlap, 1);
+}
 
 static void do_spawn(struct TCtx* c, long u);
 void add_seen(int t, int u, const char* s);
@@ -315,7 +333,7 @@ static void exec_node(struct TCtx* c, struct Node* n) {
       break;
     }
     case 'y': sched_yield(); break;
-    case 'z': { struct timespec ts = {0, (n->a > 200 ? 200 : n->a) * 1000000L}; nanosleep(&ts, NULL); break; }
+    case 'z': { long ms = n->a > 20000 ? 20000 : n->a; struct timespec ts = {ms / 1000, (ms % 1000) * 1000000L}; nanosleep(&ts, NULL); break; }
     case 't': throw(EX[n->a % NEXN], "thrown %i by %i", $I(n->a), $I(c->tid)); break;
     case '[': {
       var c0 = n->ncs > 0 ? EX[n->cs[0] % NEXN] : NULL;
@@ -331,6 +349,10 @@ static void exec_node(struct TCtx* c, struct Node* n) {
     }
     case 'L': lock(mx[n->a]); enter_section(n->a); break;
     case 'U': leave_section(n->a); unlock(mx[n->a]); break;
+    case 'B':      /* lock() after a failed trylock() */
+      if (!trylock(mx[n->a])) { __sync_fetch_and_add(&n_miss, 1); lock(mx[n->a]); }
+      enter_section(n->a);
+      break;
     case 'T': while (!trylock(mx[n->a])) { __sync_fetch_and_add(&n_miss, 1); sched_yield(); } enter_section(n->a); break;
     case 'W':
       with (held in mx[n->a]) {
@@ -503,7 +525,7 @@ static void one_case(char* line) {
 
   /* ---- phase A: every worker alone */
   cur_phase = 0;
-  for (int t = 1; t < nthreads; t++) {
+  for (int t = 1; t < nthreads && !strchr(f_nm_copy, 'n'); t++) {      /* flag n: no stand-alone phase (long-hold scenarios) */
     struct TCtx* c = &ctx[0][t];
     memset(c, 0, sizeof *c);
     c->tid = t; c->phase = 0; c->prog = progs[t]; c->alone = 1; c->rnd = seed + (uint64_t)t * 77;
@@ -518,7 +540,8 @@ static void one_case(char* line) {
     }
     del_raw(th);
   }
-  P("A: "); print_traces(0, 1);
+  P("A: "); if (!strchr(f_nm_copy, 'n')) print_traces(0, 1);
+  n_sec = 0;
   int a_overlap = n_overlap;
 
   /* ---- phase C: all together */
@@ -559,8 +582,13 @@ static void one_case(char* line) {
     for (int t = 0; t < nthreads; t++) sum += ctx[1][t].incs[m];
     if (sum != cell[m]) ln += (size_t)snprintf(lost + ln, sizeof lost - ln, "%sc%d:%ld-of-%ld", ln ? "," : "", m, cell[m], sum);
   }
-  P(" ## X: qskip=%d lost=%s overlap=%d miss=%d maxpar=%d cross=%d double=%d unfin=%d rootkill=%d stale=%d unjoined=%d",
-    n_qskip, ln ? lost : "0", n_overlap + a_overlap * 0, n_miss, n_maxpar, n_cross, n_double, unfin, n_rootkill, n_stale, unjoined + n_unjoined);
+  int tsover = 0, nsec = n_sec < MAXSEC ? n_sec : MAXSEC;
+  for (int a = 0; a < nsec; a++)
+    for (int b2 = a + 1; b2 < nsec; b2++)
+      if (seclog[a].m == seclog[b2].m && seclog[a].leave > 0 && seclog[b2].leave > 0 &&
+          seclog[a].enter < seclog[b2].leave && seclog[b2].enter < seclog[a].leave) tsover++;
+  P(" ## X: tsover=%d sections=%d qskip=%d lost=%s overlap=%d miss=%d maxpar=%d cross=%d double=%d unfin=%d rootkill=%d stale=%d unjoined=%d",
+    tsover, nsec, n_qskip, ln ? lost : "0", n_overlap + a_overlap * 0, n_miss, n_maxpar, n_cross, n_double, unfin, n_rootkill, n_stale, unjoined + n_unjoined);
 }
 
 int main(int argc, char** argv) {
